@@ -310,10 +310,13 @@ pub fn run_case(c: &FCase) -> Result<Obs, RunErr> {
     if c.second_dump && exiters.is_empty() {
         // a writer may be reused: the request judged below is then the second one
         let mut first = Dest::new(vec![], 0);
+        // the first request blames the main thread (always present); the judged one the generated thread
+        w.blamed_thread = pid;
         match with_failspots(failmask, || run_dump(&mut w, &mut first)) {
             DumpOutcome::Panic(l, m) => return Err(RunErr::Panic(l, m)),
             _ => {}
         }
+        w.blamed_thread = blamed;
         if !t.wait_settled(&spec) {
             return Err(RunErr::Inconclusive("target did not settle between two dumps".into()));
         }
